@@ -128,6 +128,9 @@ func (g *anteG) settleMsg() (string, uint64) {
 	if r.P(1, 8) {
 		admin = rng.Pick(r, accs)
 	}
+	if r.P(1, 12) {
+		admin = strings.ToUpper(admin)
+	}
 	switch r.N(9) {
 	case 0:
 		if len(g.tenants) < 3 {
@@ -152,6 +155,9 @@ func (g *anteG) settleMsg() (string, uint64) {
 		return fmt.Sprintf("cancel(%s~%d~%s)", admin, t.id, e(req)), 10000
 	case 7:
 		na := rng.Pick(r, accs)
+		if r.P(1, 10) {
+			na = fmt.Sprintf("p%d", r.N(10)) // an address with white space around it
+		}
 		return fmt.Sprintf("addadmin(%s~%d~%s)", admin, t.id, na), 10000
 	}
 	return fmt.Sprintf("setperiod(%s~%d~%d)", admin, t.id, r.N(4)), 10000
@@ -255,6 +261,9 @@ func (g *anteG) settlementTx() {
 func (g *anteG) oracleMsg(v int, feeder string) string {
 	r := g.r
 	rs := g.roundStart()
+	if r.P(1, 10) {
+		feeder = strings.ToUpper(feeder) // the same account under the upper-case spelling of its address
+	}
 	vt := fmt.Sprintf("v%d", v)
 	if r.P(1, 6) {
 		vt = fmt.Sprintf("V%d", v) // the upper-case bech32 spelling of the operator address: legal, and a different string
